@@ -77,6 +77,40 @@ func init() {
 			fv.used("lo.Contains(s, x) = exists i. s[i] == x")
 			return true
 		},
+		"github.com/samber/lo.Uniq": func(fv *FV, st *State, ins ssa.CallInstruction, v ssa.Value, callee *ssa.Function, args []string) bool {
+			cc := ins.Common()
+			sl, ok := cc.Args[0].Type().Underlying().(*types.Slice)
+			if !ok {
+				return false
+			}
+			if _, isSt := sl.Elem().Underlying().(*types.Struct); isSt {
+				return false
+			}
+			f := fv.elemFam(sl.Elem())
+			in := args[0]
+			nb := fv.alloc(st)
+			n := fv.freshConst("uniqlen", "Int")
+			fv.assume(st, and(sx("<=", "0", n), sx("<=", n, sx("s-len", in))))
+			out := sx("mk-slice", nb, "0", n, n)
+			// the result array is new: its cells get arbitrary values constrained below
+			_, names := famParams(f)
+			fv.havocFamily(st, f, eq(names[0], nb))
+			elemIn := func(i string) string { return fv.read(st, f, sx("s-base", in), sx("+", sx("s-off", in), i)) }
+			elemOut := func(j string) string { return fv.read(st, f, nb, j) }
+			qi, qj := fv.fresh("q!i"), fv.fresh("q!m")
+			inR := func(i, hi string) string { return and(sx("<=", "0", i), sx("<", i, hi)) }
+			// every input element occurs in the result
+			fv.assume(st, fmt.Sprintf("(forall ((%s Int)) (! %s :pattern ((no-trigger %s))))", qi, implies(inR(qi, sx("s-len", in)), fmt.Sprintf("(exists ((%s Int)) %s)", qj, and(inR(qj, n), eq(elemOut(qj), elemIn(qi))))), qi))
+			// every result element is an input element
+			qj2, qi2 := fv.fresh("q!m"), fv.fresh("q!i")
+			fv.assume(st, fmt.Sprintf("(forall ((%s Int)) (! %s :pattern ((no-trigger %s))))", qj2, implies(inR(qj2, n), fmt.Sprintf("(exists ((%s Int)) %s)", qi2, and(inR(qi2, sx("s-len", in)), eq(elemOut(qj2), elemIn(qi2))))), qj2))
+			// no repetition
+			qa, qb := fv.fresh("q!u"), fv.fresh("q!v")
+			fv.assume(st, fmt.Sprintf("(forall ((%s Int) (%s Int)) (! %s :pattern ((no-trigger %s) (no-trigger %s))))", qa, qb, implies(and(inR(qa, n), inR(qb, qa)), not(eq(elemOut(qa), elemOut(qb)))), qa, qb))
+			fv.bind(st, v, out)
+			fv.used("lo.Uniq(s): a new slice holding exactly the distinct elements of s")
+			return true
+		},
 		"errors.New":              modelNewError,
 		"fmt.Errorf":              modelNewError,
 		"fmt.Sprintf":             modelSprintf,
